@@ -11,6 +11,10 @@ Driver for area `memo` (C14).  Case payloads
   (`prog` = `,`-separated `<ty>:<arg>:<x>:<d|k>` or `-`), `sched` = string of thread digits (or `-`): the schedule
   the *model* runs (followed by round-robin until everybody finished).  The real threads pick their own schedule.
 
+Observations: `lang`/`new` → `h<handle>=m<allocation class>/s<strong count>`; `drop` → `ok` | `dead`; `get` →
+`<construct event or nothing>><ok:serial/ty/lang/arg/x | err:ty/lang/arg/attempt>` | `dead`; `conc` →
+`<results of thread 0>|<thread 1>|…#<construct events in order>#ovl=<overlapping critical sections>`.
+
 The concrete instance of the external world (the harness implements the same in Rust): formatter types `A`, `B`
 (never fail) and `F` (argument `<hex>.<n>`: fails while fewer than `n` constructions of this (lang, args) were
 attempted; `n = 9`: always fails).  Instances carry a serial number handed out by successful constructions.
@@ -113,7 +117,13 @@ def runSeq (conc : Bool) (body : String) : String :=
     match parseMOp conc op with
     | some o =>
       let r := mstep ext acc.1 o
-      (r.1, showObs r.2 :: acc.2)
+      -- a new handle also reports `Rc::strong_count` of its allocation
+      let extra := match r.2 with
+        | .handle _ oid => (match aget r.1.heap oid with
+            | some ob => "/s" ++ toString ob.strong
+            | none => "/s?")
+        | _ => ""
+      (r.1, (showObs r.2 ++ extra) :: acc.2)
     | none => (acc.1, "bad-op" :: acc.2)) (MState.init World.init, [])
   ";".intercalate outs.reverse
 
